@@ -200,6 +200,13 @@ BEHAVIOURS = {
     "check-missing-arguments": ("badArgs", lambda f: ([frame(b'{"command": "check", "is_tty": false}')], False)),
     "extra-argument": ("badArgs", lambda f: ([frame(json.dumps(dict(GOOD_STATUS, zzz=1)).encode())], False)),
     "stop-with-unexpected-argument": ("badArgs", lambda f: ([frame(json.dumps({"command": "stop", "is_tty": False, "terminal_width": 80, "bogus": 1}).encode())], False)),
+    # well-named but ill-typed arguments (JSON types): the client's error, answered with an error
+    "check-files-not-a-list": ("badArgs", lambda f: ([frame(json.dumps(dict(good_check(f), files=5)).encode())], False)),
+    "check-width-is-a-string": ("badArgs", lambda f: ([frame(json.dumps(dict(good_check(f), terminal_width="80")).encode())], False)),
+    "recheck-remove-not-a-list": ("badArgs", lambda f: ([frame(json.dumps({"command": "recheck", "is_tty": False, "terminal_width": 80,
+                                                                             "export_types": False, "remove": "a.py"}).encode())], False)),
+    "inspect-unknown-kind": ("badArgs", lambda f: ([frame(json.dumps({"command": "inspect", "show": "bogus", "location": "a.py:1:1"}).encode())], False)),
+    "inspect-show-not-a-string": ("badArgs", lambda f: ([frame(json.dumps({"command": "inspect", "show": 3, "location": "a.py:1:1"}).encode())], False)),
     "hangup-before-reply": ("good", lambda f: ([frame(json.dumps(good_check(f)).encode())], True)),
     "fragmented-good": ("good", lambda f: ([bytes([b]) for b in frame(json.dumps(GOOD_STATUS).encode())[:9]]
                                             + [frame(json.dumps(GOOD_STATUS).encode())[9:]], False)),
@@ -249,7 +256,7 @@ def reply_kind(d: dict | None) -> str:
 
 
 class Daemon:
-    def __init__(self, ctx: Ctx, name: str, timeout: int | None = None):
+    def __init__(self, ctx: Ctx, name: str, timeout: int | None = None, flags: list[str] | None = None):
         self.dir = os.path.join(ctx.tmp, name)
         os.makedirs(self.dir)
         with open(os.path.join(self.dir, "a.py"), "w") as f:
@@ -261,7 +268,7 @@ class Daemon:
         cmd = [PY, "-m", "mypy.dmypy", "--status-file", self.status, "start"]
         if timeout is not None:
             cmd += ["--timeout", str(timeout)]
-        cmd += ["--", "--no-error-summary", "--cache-dir", os.path.join(self.dir, "cache")]
+        cmd += ["--", "--no-error-summary", "--cache-dir", os.path.join(self.dir, "cache")] + (flags or [])
         p = subprocess.run(cmd, cwd=self.dir, env=self.env, capture_output=True, text=True, timeout=120)
         if p.returncode != 0 or not os.path.exists(self.status):
             raise ToolFailure("could not start daemon: " + p.stdout + p.stderr)
@@ -351,11 +358,11 @@ def strip_meta(d: dict | None):
     return {k: v for k, v in d.items() if k in ("out", "err", "status", "error")}
 
 
-def run_script(ctx: Ctx, idx: int, script: list[str]) -> dict:
+def run_script(ctx: Ctx, idx, script: list[str], flags: list[str] | None = None) -> dict:
     """Run `script` (behaviour names; good-check entries are the observation points) on one daemon and
     the fault-free version on another; return observations."""
-    d = Daemon(ctx, f"d{idx}")
-    ref = Daemon(ctx, f"r{idx}")
+    d = Daemon(ctx, f"d{idx}", flags=flags)
+    ref = Daemon(ctx, f"r{idx}", flags=flags)
     obs = []
     try:
         for step in script:
@@ -440,9 +447,13 @@ def serve_correspondence(ctx: Ctx) -> None:
         if sc[-1] != "good-check":
             sc += ["edit", "good-check"]
         scripts.append(sc)
+    # a fixed script on a *verbose* daemon (its log goes to the connected client): served request, a client that
+    # leaves before the reply, a client that leaves at once, then edit + check
+    scripts.append(["good-check", "hangup-before-reply", "close-before-send", "garbage-frame", "edit", "good-check"])
+    verbose_idx = len(scripts) - 1
     model = model_serve(ctx, scripts)
     with ThreadPoolExecutor(max_workers=6) as ex:
-        results = list(ex.map(lambda a: run_script(ctx, a[0], a[1]), enumerate(scripts)))
+        results = list(ex.map(lambda a: run_script(ctx, a[0], a[1], flags=["-v"] if a[0] == verbose_idx else None), enumerate(scripts)))
     ctx.sample({"serve_script": scripts[0], "observed": [(o["step"], o["reply"], o["alive"]) for o in results[0]["obs"]]})
     for sc, res, mod in zip(scripts, results, model):
         steps = [s for s in sc if s != "edit"] + ["stop"]
@@ -512,6 +523,109 @@ def timeout_exit(ctx: Ctx) -> None:
         d.kill()
 
 
+def timeout_exit_after(ctx: Ctx) -> None:
+    """Whatever the last clients did, an exit by idle timeout removes the status file."""
+    pres = ["stop-with-unexpected-argument", "garbage-frame", "close-before-send", "unknown-command", ctx.rng.choice(FAULTS)]
+    if ctx.quick():
+        pres = pres[:3]
+
+    def one(a):
+        i, pre = a
+        d = Daemon(ctx, f"tmo{i}", timeout=3)
+        try:
+            kind = d.do(pre)
+            d.wait_settled(want_dead=True, t=40)
+            return pre, kind, d.alive(), os.path.exists(d.status)
+        finally:
+            d.kill()
+    with ThreadPoolExecutor(max_workers=5) as ex:
+        for pre, kind, alive, status in ex.map(one, enumerate(pres)):
+            ctx.case(("timeout-exit-after", pre))
+            ctx.dist("client_behaviour", pre)
+            if alive:
+                ctx.report({"class": "daemon-ignores-idle-timeout", "behaviour": pre},
+                           f"daemon with --timeout 3 still runs 40 s after client behaviour '{pre}'", {"behaviour": pre, "reply": kind})
+            elif status:
+                ctx.report({"class": "status-file-survives-exit", "exit": "timeout", "behaviour": pre},
+                           f"status file remains after the daemon exited by idle timeout following client behaviour '{pre}'",
+                           {"behaviour": pre, "reply": kind})
+
+
+def rejected_check_then_new_file(ctx: Ctx) -> None:
+    """A check that is rejected (invalid source list) is a served request like any other: the next check must
+    answer for the files as they are then — compared with a daemon started afterwards."""
+    d = Daemon(ctx, "rej")
+    late = None
+    try:
+        os.makedirs(os.path.join(d.dir, "pk"))
+        r1 = strip_meta(d.request(good_check(["pk"])))
+        with open(os.path.join(d.dir, "pk", "m.py"), "w") as f:
+            f.write("x: int = ''\n")
+        r2 = strip_meta(d.request(good_check(["pk"])))
+        late = Daemon(ctx, "rej-late")
+        os.makedirs(os.path.join(late.dir, "pk"))
+        with open(os.path.join(late.dir, "pk", "m.py"), "w") as f:
+            f.write("x: int = ''\n")
+        want = strip_meta(late.request(good_check(["pk"])))
+        ctx.case(("rejected-check-then-new-file",))
+        ctx.dist("client_behaviour", "rejected-check")
+        if r2 != want:
+            ctx.report({"class": "later-check-affected", "behaviour": "rejected-check"},
+                       "after a check rejected for an invalid source list, the next check does not see a file added in between",
+                       {"first": r1, "second": r2, "daemon_started_afterwards": want})
+    finally:
+        d.kill()
+        if late:
+            late.kill()
+
+
+class _CapConn:
+    def __init__(self) -> None:
+        self.data = bytearray()
+
+    def sendall(self, b) -> None:
+        self.data += bytes(b)
+
+    def send(self, b) -> int:
+        self.data += bytes(b)
+        return len(b)
+
+
+def write_roundtrip(ctx: Ctx) -> None:
+    """Write side: what `write_bytes` puts on the wire is `Ipc.frame` (4-byte big-endian length ++ payload), for
+    payload sizes around every boundary the implementation knows (MAX_READ multiples, header size), and what the
+    real reader takes from that stream — cut at arbitrary places — is the payloads, complete and in order."""
+    from mypy.ipc import IPCBase, MAX_READ
+    rng = ctx.rng
+    sizes = sorted({n for k in (1, 2) for dlt in range(-6, 7) for n in (k * MAX_READ + dlt,)} | set(range(0, 6)) | {65535, 65536, MAX_READ // 2})
+    groups = [[n] for n in sizes] + [[rng.choice(sizes), rng.randrange(1, 50), rng.choice(sizes)] for _ in range(ctx.pick(4, 20))]
+    for g in groups:
+        payloads = [bytes(rng.randrange(1, 256) for _ in range(min(n, 64))) * (n // 64 + 1) for n in g]
+        payloads = [p[:n] for p, n in zip(payloads, g)]
+        w = IPCBase("w", None)
+        cap = _CapConn()
+        w.connection = cap  # type: ignore[assignment]
+        for pl in payloads:
+            w.write_bytes(pl)
+        wire = bytes(cap.data)
+        expect_wire = b"".join(frame(pl) for pl in payloads)
+        cuts = sorted({rng.randrange(1, max(len(wire), 2)) for _ in range(rng.randrange(0, 6))} | {c for c in range(MAX_READ, len(wire), MAX_READ)})
+        chunks = [wire[a:b] for a, b in zip([0] + cuts, cuts + [len(wire)]) if a < b]
+        r = IPCBase("r", None)
+        r.connection = _FakeConn(chunks)  # type: ignore[assignment]
+        got = [r.read_bytes() for pl in payloads if pl]
+        ctx.case(("W", tuple(g), tuple(cuts)), nontrivial=len(chunks) > 1)
+        ctx.dist("write_sizes", "boundary" if len(g) == 1 else "mixed")
+        ctx.count("traces_validated_against_impl")
+        want = [pl for pl in payloads if pl]
+        if wire != expect_wire or got != want or r.buffer:
+            where = next((i for i, (a, b) in enumerate(zip(got, want)) if a != b), len(got))
+            ctx.report({"class": "frame-corrupted", "side": "write"},
+                       f"messages of {g} bytes written with IPCBase.write_bytes do not arrive intact: wire has {len(wire)} bytes "
+                       f"(expected {len(expect_wire)}), message {where} differs or bytes are left over ({len(r.buffer)})",
+                       {"payload_sizes": g, "cuts": cuts, "wire_len": len(wire), "expected_wire_len": len(expect_wire)})
+
+
 def main(ctx: Ctx) -> None:
     ctx.level = "proof"
     ctx.coverage["rule"] = ("framing: every segmentation of short framed streams (≤ 11 bytes, incl. truncated ones) "
@@ -526,6 +640,9 @@ def main(ctx: Ctx) -> None:
     framing_correspondence(ctx)
     serve_correspondence(ctx)
     timeout_exit(ctx)
+    timeout_exit_after(ctx)
+    rejected_check_then_new_file(ctx)
+    write_roundtrip(ctx)
     if not proved and not ctx.violations:
         ctx.violation("Lean development for C16 no longer builds", {"broken": ctx.broken_ties}, found_input=False)
 
